@@ -493,6 +493,7 @@ impl C08 {
                 i.decline_diff = 4;
             }
             i.chained_diff = t.chance(1, 3);
+                i.implicit_max_len = t.chance(1, 3);
         }
         // a little history so that in-window serial queries have a diff
         if cfg.dynamic || matches!(kind, RunKind::Random) {
